@@ -492,7 +492,7 @@ def load_table():
     return {e["key"]: e for e in json.load(open(path))}
 
 
-def panic_rule(ctx, prop, rule, entries, floor=0, skip_fns=()):
+def panic_rule(ctx, prop, rule, entries, floor=0, skip_fns=(), only_fn=None):
     names = closure_of(ctx, entries)
     table = load_table()
     n_sites = n_counted = 0
@@ -501,7 +501,7 @@ def panic_rule(ctx, prop, rule, entries, floor=0, skip_fns=()):
     bodies = 0
     for nm in sorted(names):
         for b in ctx.crate.bodies.get(nm, []):
-            if fn_of(b.name) in skip_fns:
+            if fn_of(b.name) in skip_fns or (only_fn is not None and fn_of(b.name) != only_fn):
                 continue
             fa = ctx.fa(b)
             bodies += 1
